@@ -277,18 +277,28 @@ def run(case, env):
             got = read_dir(dest)
             compare("dir", want, got, detail, pending)
         else:
-            _export.export(tree, dest, **kw)
+            if ex.get("fileobj"):
+                with open(dest, "wb") as f:
+                    _export.export(tree, dest, fileobj=f, **kw)
+            else:
+                _export.export(tree, dest, **kw)
             check(os.path.isfile(dest), "C42/archive-not-written", detail)
             if ex["root"] is None:
                 aroot = ex["base"]
             else:
                 aroot = ex["root"]
-            if ef == "zip":
-                members = read_zip(dest)
-                what = "zip"
-            else:
-                members = read_tar(dest, ef)
-                what = "tar"
+            import zlib
+            try:
+                if ef == "zip":
+                    members = read_zip(dest)
+                    what = "zip"
+                else:
+                    members = read_tar(dest, ef)
+                    what = "tar"
+            except (tarfile.TarError, zipfile.BadZipFile, EOFError, OSError,
+                    zlib.error, lzma.LZMAError) as e:
+                check(False, "C42/%s-archive-unreadable" % ef,
+                      detail + [repr(e)])
             got = strip_root(members, aroot, what, detail)
             compare(what, want, got, detail, pending)
         if rich and (ex["root"] is not None or subdir not in (None, "")):
@@ -393,6 +403,7 @@ def gen_case(draw):
                                           "r \xe4"])),
             "subdir": subdir,
             "pft": draw(st.sampled_from([False, False, True])),
+            "fileobj": draw(st.sampled_from([False, False, True])),
             "dest_state": draw(st.sampled_from(["absent", "absent", "empty",
                                                 "nonempty"])),
         })
